@@ -56,7 +56,7 @@ CHECKS = {
         rapid("e2e", "TestC15Index", 320, 16000, qs=16, ts=16, timeout=1200, ttimeout=14000, replay="TestC15IndexReplay"),
         fuzz("pure", "FuzzC15Parser", 120),
     ]),
-    "C16": dict(tests=[rapid("e2e", "TestC16", 32, 1600, qs=16, ts=16, timeout=1500, ttimeout=14000)]),  # one rapid check = a batch of 12 cases run concurrently
+    "C16": dict(tests=[rapid("e2e", "TestC16", 32, 1600, qs=16, ts=16, timeout=1500, ttimeout=14000, replay="(TestC16Replay|TestC16BatchReplay)")]),  # one rapid check = a batch of 12 cases run concurrently
     "C17": dict(tests=[
         rapid("pure", "TestC17", 32000, 3200000, qs=8, shrinktime="8s"),  # a hanging request costs 10 s per attempt: do not shrink for long
     ]),
